@@ -67,7 +67,7 @@ def data_item(sim, fe, it, r, idx):
     life = 0 if it.get('life0') else LIFE
     h = sim.express(name, lifetime=life, vlat=lat_s(it['lat']), verdict=_verdict_obj(fe, it['verdict']),
                     validator='default' if supplied else 'none', await_after=0.03 if it.get('await_later') else 0.0,
-                    falsy_validator=bool(it.get('falsy')))
+                    falsy_validator=it.get('falsy') or False)
     if h.express_error is not None:
         r.bad(f'C05/{fe}/data/express-raised/{exc_site(h.express_error)}', repr(h.express_error))
         return None
@@ -205,8 +205,8 @@ def interest_item(sim, fe, it, r, idx):
                 return verdict
         if it.get('falsy_route_validator') and tag == 'route':
             # a callable policy OBJECT that is falsy (it has a __len__): it is the validator given for the route all the same
-            from ..sim.appsim import FalsyCallable
-            return FalsyCallable(v)
+            from ..sim.appsim import shape_callable
+            return shape_callable(v, it['falsy_route_validator'])
         return v
     route_v = None
     verdict = None
@@ -374,6 +374,9 @@ def run_case(case):
 
 
 # ---- the grid ------------------------------------------------------------------------------------------------------
+_SHAPES = ['lambda', 'object', 'async-object', 'partial', 'future', 'wrapped', 'bound']
+
+
 def _grid_items(fe):
     verdicts = V2_VERDICTS if fe == 'v2' else LEGACY_VERDICTS
     for v, lat, dsig in itertools.product(verdicts, LATS, ['none', 'digest', 'bad']):
@@ -387,6 +390,10 @@ def _grid_items(fe):
             yield {'side': 'data', 'validator': 'supplied', 'verdict': v, 'lat': '400ms', 'dsig': 'digest', 'life0': True}
         # the supplied validator is a callable object that is falsy (an 'empty' collection-like policy object)
         yield {'side': 'data', 'validator': 'supplied', 'verdict': v, 'lat': lat, 'dsig': 'digest', 'falsy': True}
+        if lat in ('0', '1ms'):
+            # ... or any other legal form of "a callable returning an awaitable" (see sim.appsim.shape_callable)
+            for shape in _SHAPES:
+                yield {'side': 'data', 'validator': 'supplied', 'verdict': v, 'lat': lat, 'dsig': 'digest', 'falsy': shape}
     for dsig in ['none', 'digest', 'bad', 'short', 'empty', 'long']:
         yield {'side': 'data', 'validator': 'none', 'verdict': None, 'lat': '0', 'dsig': dsig}
     for v1, v2 in itertools.product(verdicts, verdicts):
@@ -407,6 +414,9 @@ def _grid_items(fe):
                 yield dict(base, attach_during=True)
             if kind != 'plain' and dg == 'correct' and rv != 'absent' and not isinstance(rv, list):
                 yield dict(base, falsy_route_validator=True)
+                if kind == 'params+sig':
+                    for shape in _SHAPES:
+                        yield dict(base, falsy_route_validator=shape)
             if kind != 'plain' and dg == 'correct' and rv in ('absent', verdicts[0]):
                 if fe == 'v2':
                     yield dict(base, reattach=True)
